@@ -623,7 +623,7 @@ class RegistryModel(object):
 KNOWN = {}
 
 SUBS = [
-    Sub('day_laws', _day_case, run_day_laws, quick=1200, thorough=8000,
+    Sub('day_laws', _day_case, run_day_laws, quick=800, thorough=8000,
         rule='calendar configuration (range 500-1095 days starting on any weekday 1996-2004, weekend in {Sat-Sun, Fri-Sat, Sun, none}, adj in {f,p,m}, '
              'holidays = 0-63% of days at random + 0-4 runs of 1-40 consecutive holidays placed at random / across a month end / around a weekend) x 1-40 points '
              '(t in the interior so that 41 business days either side stay in range, biased to holidays and month ends; n in [-40,40] biased to |n|<=3; '
@@ -632,17 +632,17 @@ SUBS = [
              'non-trivial = some point has t non-business, or its walk crosses >= 2 consecutive holidays, or the modified-following month-end rule fires',
         floor=0.5, class_floors={'pt_month_end_rule': 0.1, 'pt_crosses_run>=2': 0.2, 'pt_holiday_weekday': 0.3, 'run_straddles_month_end': 0.1,
                                  'weekend=none': 0.1, 'weekend=6': 0.1, 'weekend=4,5': 0.1, 'adj=p': 0.15, 'adj=f': 0.15, 'adj=m': 0.15}),
-    Sub('drange_1b', _drange_case, run_drange, quick=2000, thorough=8000,
+    Sub('drange_1b', _drange_case, run_drange, quick=1200, thorough=8000,
         rule='configuration as in day_laws (range 120-500 days) x 1-25 pairs t <= u between the first and last business day, spans 0-12 / 0-90 / anything, '
              'endpoints biased to holidays. Oracle: the list of business days d with adjust(t) <= d <= adjust(u), found by visiting every day, compared as a list '
              '(order, nothing missing, nothing extra). non-trivial = an endpoint is not a business day or a weekday holiday lies inside',
         floor=0.5, class_floors={'endpoint_nonbday': 0.3, 'holiday_inside': 0.3, 'single_day': 0.05}),
-    Sub('all_days', _all_case, run_all_days, quick=20, thorough=100,
+    Sub('all_days', _all_case, run_all_days, quick=16, thorough=100,
         rule='one configuration, completely enumerated: every day between the first and last business day of the range (quick: range 90-200 days; thorough: 365-800 days) '
              'for is_bday/is_holiday/adjust f,p,m/drange(t, t+9), and every n in [-40,40] whose walk stays in range for add, bdays, inverse; 2-step law. '
              'non-trivial = the configuration has holidays and non-business days',
         floor=0.25),
-    MachineSub('registry', RegistryModel, quick=(1000, 12), thorough=(1500, 20),
+    MachineSub('registry', RegistryModel, quick=(800, 12), thorough=(1500, 20),
                rule='histories of register(key, holidays, weekend) / re-register with holidays only / register a Calendar object / re-register through the object / '
                     'fetch(key) / populate tables, 3 keys, holidays in a 70-day window; after every step every key known to the model is fetched and is_bday over the window, '
                     'is_holiday, adjust, add(+1) and - for small ranges - the table path add(+4) and bdays are compared with the LAST registration. '
